@@ -86,8 +86,10 @@ def c01Step [DecidableEq α] (k : MKind) (n : Nat) (learning : Aid → Bool) (sh
     !blockedR &&
     -- same key set in all four dictionaries, each agent once
     keys o.rewards == ks && keys o.dones == ks && keys o.infos == ks && decide ks.Nodup &&
-    -- only agents of the simulation are reported
-    ks.all (fun a => decide (a < n)) &&
+    -- only participating agents of the simulation are reported
+    ks.all (fun a => decide (a ∈ participating k n learning)) &&
+    -- when `__all__` is reported every participating agent not yet reported done gets its final report
+    (!o.allDone || (participating k n learning).all (fun a => decide (a ∈ g.R) || decide (a ∈ ks))) &&
     -- nobody already reported done is reported again
     ks.all (fun a => decide (a ∉ g.R)) &&
     -- the accepted actions reached the simulation unchanged
